@@ -158,6 +158,8 @@ class LoopHooks(Hooks):
             except _Break:
                 raise Unsupported("break in annotated loop")
             eng.require(f"inv.preserve:{label}", inv(env, j + 1))
+            eng.state["preserve_env"] = dict(env)      # state after one generic iteration, for the contract to inspect
+            eng.state["preserve_iter"] = j
             raise PathAbort()
         # use: after the loop
         eng.assume(inv(env, count))
